@@ -52,6 +52,20 @@ impl Monitor for C14 {
                     }
                 }
             }
+            // placeholders that compare equal but are different values, fed back to back to the same
+            // expression: a memo keyed on == or on the numeric value would hand back the wrong one
+            for group in confusable_groups(ev) {
+                for s in ["@", "1/@", "@*1", "@+0", "abs(@)-@", "sqrt(@)", "-@", "@/3", "min(@,@)", "@^1"] {
+                    for rot in 0..group.len() {
+                        if ctx.mine() {
+                            let mut g = group.clone();
+                            g.rotate_left(rot);
+                            let case = Case { ev, kind: "confusable-sequence".into(), exprs: vec![s.to_string()], phs: g, extra: String::new() };
+                            ctx.check(&case, &|c, st| self.judge(c, st));
+                        }
+                    }
+                }
+            }
             // not part of implicit multiplication
             for s in ["2@", "@2", "@(2)", "(2)@", "@@", "@abs(1)", "abs(1)@", "2(@)@", "@.5"] {
                 if ctx.mine() {
@@ -123,6 +137,36 @@ impl Monitor for C14 {
                     _ => Verdict::Skip("panic-or-budget"),
                 }
             }
+            "confusable-sequence" => {
+                // each call in the sequence must equal the same expression with @ spelled out (a different
+                // text, so a cache keyed on the expression cannot confuse the two), or the bound reference
+                for p in &case.phs {
+                    let o = sut::call(ev, s, p);
+                    if matches!(o, Outcome::Panic(..) | Outcome::Budget(_)) {
+                        return Verdict::Skip("panic-or-budget");
+                    }
+                    if s == "@" {
+                        match &o {
+                            Outcome::Ok(v) if v.same_bits(p) && exact_nan(v, p) => {}
+                            _ => return viol("placeholder-altered", format!("C14|{}|placeholder-altered|sequence", ev.name()), format!("in the sequence {:?}, `@` with placeholder {} returned {}", case.phs.iter().map(|x| x.show()).collect::<Vec<_>>(), p.show(), o.show())),
+                        }
+                        continue;
+                    }
+                    if let Some(lit) = value_expr(p) {
+                        let t = s.replace('@', &lit);
+                        let b = sut::call(ev, &t, &Val::zero(ev));
+                        if !matches!(b, Outcome::Panic(..) | Outcome::Budget(_)) && !o.same(&b) {
+                            return viol("placeholder-not-the-value", format!("C14|{}|placeholder-not-the-value|sequence", ev.name()), format!("in the sequence {:?}: {} with @={} -> {} but {} -> {}", case.phs.iter().map(|x| x.show()).collect::<Vec<_>>(), s, p.show(), o.show(), t, b.show()));
+                        }
+                    } else if let Ok(pp) = parse(ev, s) {
+                        if let RefVerdict::Bad(c, d) = judge_ref(ev, &pp.ast, p, &o, false) {
+                            return viol(c, format!("C14|{}|{}|sequence", ev.name(), c), format!("in the sequence {:?}: {} with @={} : {}", case.phs.iter().map(|x| x.show()).collect::<Vec<_>>(), s, p.show(), d));
+                        }
+                    }
+                }
+                st.inc("confusable_sequences_confirmed");
+                pass(true)
+            }
             "no-juxtaposition" => {
                 if parse(ev, s).is_ok() {
                     return Verdict::Skip("accepted-by-reference");
@@ -169,6 +213,28 @@ impl Monitor for C14 {
         vec!["a Decimal negative zero, complex parts that are zero or non-finite, and non-finite doubles have no literal spelling and go through the bound reference"]
     }
     fn floors(&self, _t: Tier) -> Vec<(String, u64)> {
-        vec![("identity_confirmed".into(), 500), ("substitutions_equal_ok".into(), 5_000), ("bound_reference_confirmed".into(), 200)]
+        vec![("confusable_sequences_confirmed".into(), 100), ("identity_confirmed".into(), 500), ("substitutions_equal_ok".into(), 5_000), ("bound_reference_confirmed".into(), 200)]
+    }
+}
+
+/// NaN placeholders must come back with their own payload ("bit-identical ... including NaN")
+fn exact_nan(a: &Val, b: &Val) -> bool {
+    match (a, b) {
+        (Val::F(x), Val::F(y)) | (Val::NF(x), Val::NF(y)) => x.to_bits() == y.to_bits(),
+        (Val::C(x, y), Val::C(z, w)) => x.to_bits() == z.to_bits() && y.to_bits() == w.to_bits(),
+        _ => true,
+    }
+}
+
+/// groups of placeholders that are equal under == / numerically, yet different values
+pub fn confusable_groups(ev: crate::val::Ev) -> Vec<Vec<Val>> {
+    use crate::val::{DecV, Ev};
+    let d = |neg, mant, scale| Val::D(DecV { neg, mant, scale });
+    match ev {
+        Ev::F64 => vec![vec![Val::F(0.0), Val::F(-0.0)], vec![Val::F(f64::NAN), Val::F(f64::from_bits(0x7ff8_0000_0000_0001)), Val::F(f64::from_bits(0xfff8_0000_0000_0000))], vec![Val::F(1.0), Val::F(1.0000000000000002)]],
+        Ev::I64 => vec![vec![Val::I(0), Val::I(4294967296), Val::I(-4294967296)], vec![Val::I(i64::MAX), Val::I(i64::MIN), Val::I(-1)]],
+        Ev::Dec => vec![vec![d(false, 1, 0), d(false, 10, 1), d(false, 100, 2)], vec![d(false, 0, 0), d(true, 0, 0), d(false, 0, 28)], vec![d(false, 25, 1), d(false, 250, 2)]],
+        Ev::Cpx => vec![vec![Val::C(0.0, 0.0), Val::C(-0.0, 0.0), Val::C(0.0, -0.0)], vec![Val::C(1.0, 2.0), Val::C(1.0, -2.0)], vec![Val::C(f64::NAN, 1.0), Val::C(f64::from_bits(0x7ff8_0000_0000_0001), 1.0)]],
+        Ev::Num => vec![vec![Val::NI(5), Val::NF(5.0)], vec![Val::NI(0), Val::NF(0.0), Val::NF(-0.0)], vec![Val::NF(f64::NAN), Val::NF(f64::from_bits(0x7ff8_0000_0000_0001))]],
     }
 }
